@@ -1,23 +1,23 @@
 /-
   CoreSpec, histories with writes: deep verification of a node, part 6 — the result.
 
-    theorem deepOk' (hP : Wf2 P idOf) (r) (mc) (hmc : McaSpec P idOf r mc)
-        (hms : SpecMcaOk P idOf (mcaSpec P.spec)) (hst : RelM Sticky mc) : DeepOk' P idOf r mc
+    theorem deepOk (hP : Wf2 P idOf) (r) (mc) (hmc : McaSpec P idOf r mc)
+        (hms : SpecMcaOk P idOf (mcaSpec P.spec)) : DeepOk P idOf r mc
 
-  `DeepOk'` is `DeepOk` (Proofs/CoreSpecRevSpecs.lean) with `LocalTie'` in place of `LocalTie`.
-  Two deviations from the statement asked for, both necessary:
-   1. `LocalTie` demands `hotDep` of EVERY read before the `create`.  An unrecorded read (its
-      dependency is NEVER_CHANGE) is skipped by `deep_verify_edges`, so after the walk its memo
-      passes the shallow test (`sokDep`) but need not be verified in the current revision: `LocalTie`
-      is false there (`CexLocalTie.cex` below: a concrete run of the model).  `LocalTie'` asks
-      `sokDep` for all reads and `hotDep` for the recorded ones; `LocalTie → LocalTie'`
-      (`localTie'_of_localTie`), and `sokDep` + the info of a dependency are as stable under `Ext` as
-      `hotDep` (`sokDep_info_ext`, Proofs/CoreSpecRevDeep1.lean).
-   2. `hst : RelM Sticky mc` (panics stay latched across `maybe_changed_after` of smaller ranks):
-      `McaSpec` constrains `mc` only when its result has no panic, so a function that panics at one
-      edge and clears the latch at the next satisfies `McaSpec` vacuously and ends the walk without
-      panic in an arbitrary state.  The engine satisfies it: `(eng_rel primRel_sticky P r).2`
-      (`deepOk'_eng`).
+  (`DeepOk`, `LocalTie`: Proofs/CoreSpecRevSpecs.lean.)  Two remarks on the statement:
+   1. `LocalTie` asks `sokDep` of every read before the `create` and `hotDep` of the recorded ones
+      only: an unrecorded read (its dependency is NEVER_CHANGE) is skipped by `deep_verify_edges`,
+      so after the walk its memo passes the shallow test but need not be verified in the current
+      revision (`CexHot.cex` below: a concrete run of the model).  `sokDep` + the info of a
+      dependency are as stable under `Ext` as `hotDep` (`dv_sokDep_info_ext`,
+      Proofs/CoreSpecRevDeep1.lean).  The order clause `AOrd` of the `Assigned` memo is not part of
+      `LocalTie`: the validation of the output edge sets `A.va := cur` while the creator's memo
+      still has its old `verified_at` (same run: `A.va = 2`, `m.va = 1`, relevant write at 2).
+   2. `DeepOk` starts with `RelM Sticky mc` (panics stay latched across `maybe_changed_after` of
+      smaller ranks): `McaSpec` constrains `mc` only when its result has no panic, so a function
+      that panics at one edge and clears the latch at the next satisfies `McaSpec` vacuously and
+      ends the walk without panic in an arbitrary state.  The engine satisfies it:
+      `(eng_rel primRel_sticky P r).2`.
   Core Lean only.
 -/
 import SalsaVerif.Proofs.CoreSpecRevDeep5
@@ -26,36 +26,10 @@ import SalsaVerif.Proofs.CoreSpecRevShallow
 namespace SalsaVerif.Proofs.CoreSpec
 open SalsaVerif.Model.CoreSpec
 
-/-- `LocalTie` with `sokDep` for every read before the `create` and `hotDep` for the recorded ones -/
-def LocalTie' (P : Prog) (idOf : Nat → Nat) (s : State) (r : Nat) (mo : Memo) : Prop :=
-  ∃ R, replayR r idOf (P.node r) mo.obs none none = some R ∧
-    TieOk s r mo R (preOf idOf (P.node r) mo.obs) ∧
-    ∀ o, o ∈ preOf idOf (P.node r) mo.obs →
-      sokDep s o.dep ∧ (o.recd = true → hotDep s o.dep) ∧
-      ∃ x, depInfo s o.dep = some x ∧ x.val = o.val ∧ semDep P s.inp o.dep = o.val
-
-theorem localTie'_of_localTie {P idOf s r mo} (h : LocalTie P idOf s r mo) : LocalTie' P idOf s r mo := by
-  obtain ⟨R, h1, h2, h3⟩ := h
-  exact ⟨R, h1, h2, fun o ho => ⟨sokDep_of_hot (h3 o ho).1, fun _ => (h3 o ho).1, (h3 o ho).2⟩⟩
-
-/-- `DeepOk` with `LocalTie'` -/
-def DeepOk' (P : Prog) (idOf : Nat → Nat) (r : Nat) (mc : McaFn) : Prop :=
-  ∀ (s : State) (m : Memo), Inv P idOf s → NB s (r + 1) → s.memos r = some m → ¬ SOK s m →
-    (deepEdges mc P.spec r m.obs s m.va).1.panic = none →
-    Inv P idOf (deepEdges mc P.spec r m.obs s m.va).1 ∧ NB (deepEdges mc P.spec r m.obs s m.va).1 r ∧
-    Ext s (deepEdges mc P.spec r m.obs s m.va).1 (r + 1) ∧
-    (deepEdges mc P.spec r m.obs s m.va).1.memos r = some m ∧
-    (Busy (deepEdges mc P.spec r m.obs s m.va).1 r → LocalTie' P idOf (deepEdges mc P.spec r m.obs s m.va).1 r m) ∧
-    ((deepEdges mc P.spec r m.obs s m.va).2 = true →
-      (markDeepVerified (deepEdges mc P.spec r m.obs s m.va).1 r m).panic = none →
-      Inv P idOf (markDeepVerified (deepEdges mc P.spec r m.obs s m.va).1 r m) ∧
-      NB (markDeepVerified (deepEdges mc P.spec r m.obs s m.va).1 r m) (r + 1) ∧
-      Ext s (markDeepVerified (deepEdges mc P.spec r m.obs s m.va).1 r m) (r + 1))
-
-theorem nb_emit {u : State} {k : Nat} (e : Ev) (h : NB u k) : NB (emit u e) k :=
+theorem dv_nb_emit {u : State} {k : Nat} (e : Ev) (h : NB u k) : NB (emit u e) k :=
   fun c hc hb => h c hc hb
 
-theorem ext_emit {s u : State} {k : Nat} (e : Ev) (h : Ext s u k) : Ext s (emit u e) k :=
+theorem dv_ext_emit {s u : State} {k : Nat} (e : Ev) (h : Ext s u k) : Ext s (emit u e) k :=
   ⟨h.cur, h.lch, h.inp, h.wlog, h.above_m, h.above_s, h.above_sm, h.hot, h.sok, h.mono, h.slot, h.noslot,
    h.smhot, h.smsok⟩
 
@@ -68,7 +42,7 @@ theorem Walk.oldTie (C : WalkCtx P idOf r s m R) (w : Walk P idOf r s m R done t
     TieOk t r m R (preOf idOf (P.node r) m.obs) := by
   have htie := C.tie
   unfold TieOk at htie
-  refine w.tie C hall m rfl ?_ ?_
+  refine w.tie C hall m rfl (Nat.le_refl _) ?_ ?_
   · intro sl hsl
     cases hts : R.ts with
     | none =>
@@ -100,34 +74,35 @@ theorem Walk.oldTie (C : WalkCtx P idOf r s m R) (w : Walk P idOf r s m R done t
       · right; rw [f3]; exact h
 
 /-- MAIN, relative to `validateOutput_ok` -/
-theorem deepOk'_of (hP : Wf2 P idOf) (VO : ValidateOutputOk P idOf) (r : Nat) (mc : McaFn)
-    (hmc : McaSpec P idOf r mc) (hms : SpecMcaOk P idOf (mcaSpec P.spec)) (hst : RelM Sticky mc) :
-    DeepOk' P idOf r mc := by
-  intro s m hI hnb hm hns hpn
+theorem deepOk_of (hP : Wf2 P idOf) (VO : ValidateOutputOk P idOf) (r : Nat) (mc : McaFn)
+    (hmc : McaSpec P idOf r mc) (hms : SpecMcaOk P idOf (mcaSpec P.spec)) : DeepOk P idOf r mc := by
+  intro hst s m hI hnb hm hns hpn
   have nok := hI.node r m hm
   obtain ⟨R, hR, _, _, _, htie⟩ := nok.rep
   have hnbr : ¬ Busy s r := hnb r (Nat.lt_succ_self r)
-  have C : WalkCtx P idOf r s m R := ⟨hP, hI, hm, hns, hR, htie hnbr⟩
+  have C : WalkCtx P idOf r s m R := ⟨hP, hI, hm, hns, hR, (htie hnbr).1⟩
   have w0 : Walk P idOf r s m R [] s :=
     ⟨hI, fun c hc => hnb c (Nat.lt_succ_of_lt hc), Ext.refl s _, hm, fun sl h => ⟨sl, h, SlotEq.refl sl⟩, id,
      fun A h => ⟨A, h, VerEq.refl _ _⟩, id, (fun o ho => by cases ho), (fun o ho => by cases ho),
-     fun hb => absurd hb hnbr, (fun o ho => by cases ho)⟩
+     (fun o ho => by cases ho), fun hb => absurd hb hnbr, (fun o ho => by cases ho)⟩
   obtain ⟨done', w, hdone⟩ := walk_all C hmc hms hst VO m.obs [] s (by simp) w0 hpn
   generalize deepEdges mc P.spec r m.obs s m.va = tf at w hdone hpn
   refine ⟨w.inv, w.nb, w.ext, w.mem, ?_, ?_⟩
   · intro hb
-    obtain ⟨_, hall⟩ := w.busy hb
-    refine ⟨R, hR, w.oldTie C hall, ?_⟩
+    obtain ⟨_, hall, hAcur⟩ := w.busy hb
+    refine ⟨R, hR, w.oldTie C hall, fun _ _ A hA => hAcur A hA, ?_⟩
     intro o ho
     have g := w.pgreen o (hall o ho) ho
     obtain ⟨x, hx, hv, _⟩ := g.info
-    exact ⟨g.sok, g.hot, x, hx, hv, g.sem hP w.inv⟩
+    obtain ⟨x', hx', hc⟩ := w.stamp o (hall o ho) (preOf_nonout r idOf _ _ none none R hR o ho)
+    rw [hx] at hx'; cases hx'
+    exact ⟨g.sok, g.hot, x, hx, hv, g.sem hP w.inv, hc⟩
   · intro hres _
     have e := hdone hres
     subst e
     have hinv := inv_restamp w.inv w.mem (nodeOk_restamped C w)
     rw [markDeepVerified_eq]
-    exact ⟨inv_emit hinv _, nb_emit _ (nb_restamp w.nb), ext_emit _ (ext_restamp hI hm hns w.ext)⟩
+    exact ⟨inv_emit' hinv _, dv_nb_emit _ (nb_restamp w.nb), dv_ext_emit _ (ext_restamp hI hm hns w.ext)⟩
 
 end Result
 
@@ -135,25 +110,22 @@ theorem validateOutputOk (P : Prog) (idOf : Nat → Nat) : ValidateOutputOk P id
   fun _ _ _ hI hA ho htie => validateOutput_ok hI hA ho htie
 
 /-- MAIN: deep verification of node `r` whose memo fails the shallow test -/
-theorem deepOk' {P : Prog} {idOf : Nat → Nat} (hP : Wf2 P idOf) (r : Nat) (mc : McaFn)
-    (hmc : McaSpec P idOf r mc) (hms : SpecMcaOk P idOf (mcaSpec P.spec)) (hst : RelM Sticky mc) :
-    DeepOk' P idOf r mc :=
-  deepOk'_of hP (validateOutputOk P idOf) r mc hmc hms hst
+theorem deepOk {P : Prog} {idOf : Nat → Nat} (hP : Wf2 P idOf) (r : Nat) (mc : McaFn)
+    (hmc : McaSpec P idOf r mc) (hms : SpecMcaOk P idOf (mcaSpec P.spec)) : DeepOk P idOf r mc :=
+  deepOk_of hP (validateOutputOk P idOf) r mc hmc hms
 
-/-- for the engine the stickiness hypothesis holds -/
-theorem deepOk'_eng {P : Prog} {idOf : Nat → Nat} (hP : Wf2 P idOf) (r : Nat)
-    (hmc : McaSpec P idOf r (eng P r).2) (hms : SpecMcaOk P idOf (mcaSpec P.spec)) :
-    DeepOk' P idOf r (eng P r).2 :=
-  deepOk' hP r _ hmc hms (eng_rel primRel_sticky P r).2
+/-- for the engine the stickiness premise of `DeepOk` holds -/
+example (P : Prog) (r : Nat) : RelM Sticky (eng P r).2 := (eng_rel primRel_sticky P r).2
 
-/-! ### `LocalTie` (with `hotDep` for unrecorded reads) fails after a successful walk
+/-! ### an unrecorded read before the `create` is not verified in the current revision after the walk
 
   Node 0 is constant (NEVER_CHANGE).  Node 1 reads node 0 (unrecorded), reads input 0, creates its
   struct and specifies.  `get 1`, then a write to ANOTHER input of level 0, then the deep
   verification of node 1: the edge on input 0 is unchanged, the output edge is validated (node 1 is
-  busy now), the result is "unchanged" — and the memo of node 0 was never touched: it is not
-  verified in the current revision. -/
-namespace CexLocalTie
+  busy now), the result is "unchanged" — and the memo of node 0 was never touched: `hotDep` fails
+  for the first read before the `create`, which is why `LocalTie` asks `hotDep` of recorded reads
+  only.  (The hypotheses of `DeepOk` on this run: a memo that fails the shallow test, no panic.) -/
+namespace CexHot
 
 def P : Prog where
   node q := if q = 0 then .ret ⟨5, none⟩ else
@@ -174,22 +146,25 @@ theorem h_lc : lc tf.1 0 = 2 := by decide
 theorem h_pre : o0 ∈ preOf (fun _ => 0) (P.node 1) obs1 := by decide
 
 theorem cex : ∀ m, s2.memos 1 = some m →
-    deepEdges (eng P 1).2 P.spec 1 m.obs s2 m.va = tf ∧ tf.2 = true ∧ tf.1.panic = none ∧ Busy tf.1 1 ∧
-    ¬ LocalTie P (fun _ => 0) tf.1 1 m := by
+    ¬ SOK s2 m ∧ deepEdges (eng P 1).2 P.spec 1 m.obs s2 m.va = tf ∧ tf.2 = true ∧ tf.1.panic = none ∧
+    Busy tf.1 1 ∧ o0 ∈ preOf (fun _ => 0) (P.node 1) m.obs ∧ ¬ hotDep tf.1 o0.dep := by
   intro m hm
   have h := h_memo
   rw [hm] at h
   simp only [Option.map_some, Option.some.injEq, Prod.mk.injEq] at h
-  obtain ⟨hobs, hva, _⟩ := h
+  obtain ⟨hobs, hva, hdur⟩ := h
   have hcur := h_res.2.2
-  refine ⟨by rw [hobs, hva]; rfl, h_res.1, h_res.2.1, ?_, ?_⟩
+  refine ⟨?_, by rw [hobs, hva]; rfl, h_res.1, h_res.2.1, ?_, by rw [hobs]; exact h_pre, ?_⟩
+  · rintro (e | e)
+    · rw [hva] at e; exact absurd e (by decide)
+    · rw [hva, hdur] at e; exact absurd e (by decide)
   · have hs := h_slot
     cases hsl : tf.1.slots 1 with
     | none => rw [hsl] at hs; cases hs
     | some sl =>
       rw [hsl] at hs
       simp only [Option.map_some, Option.some.injEq] at hs
-      refine ⟨sl, rfl, by rw [hs, hcur], ?_⟩
+      refine ⟨sl, hsl, by rw [hs, hcur], ?_⟩
       rintro ⟨m', hm', hsok⟩
       have h1 := h_m1
       rw [hm'] at h1
@@ -197,13 +172,12 @@ theorem cex : ∀ m, s2.memos 1 = some m →
       rcases hsok with e | e
       · omega
       · rw [h1.2, h_lc] at e; omega
-  · rintro ⟨R, _, _, hall⟩
-    obtain ⟨⟨m0, hm0, hv0⟩, _⟩ := hall o0 (by rw [hobs]; exact h_pre)
+  · rintro ⟨m0, hm0, hv0⟩
     have h0 := h_m0
     rw [hm0] at h0
     simp only [Option.map_some, Option.some.injEq] at h0
     omega
 
-end CexLocalTie
+end CexHot
 
 end SalsaVerif.Proofs.CoreSpec
